@@ -1,5 +1,5 @@
 From Coq Require Import ZArith List Bool.
-From PV Require Import Base.U64 C13.C13_Model C13.C13_Msg C13.C13_Proofs C13.C13_MsgProofs C13.C13_Statements C13.C13_ChunkSafe C13.C13_ChunkDecode C13.C13_Roundtrip.
+From PV Require Import Base.U64 C13.C13_Model C13.C13_Msg C13.C13_Proofs C13.C13_MsgProofs C13.C13_Statements C13.C13_ChunkSafe C13.C13_ChunkDecode C13.C13_Roundtrip C13.C13_ChunkTotal C13.C13_ParseSafe.
 Import ListNotations.
 Local Open Scope Z_scope.
 
@@ -124,3 +124,18 @@ Theorem chunked_roundtrip :
           c_finish s' = true /\ forall c, crs_read s' c = Some (0, [], s')).
 Proof. exact chunked_roundtrip_proof. Qed.
 Print Assumptions chunked_roundtrip.
+
+Theorem chunked_malformed_safe :
+  forall (cap : Z) (partial : bytes) (ps : pieces) (err : bool) (counts : list Z),
+    LINE_BUFFER_SIZE <= cap -> zlen partial <= LINE_BUFFER_SIZE ->
+    Forall (fun c => 0 <= c) counts ->
+    crs_run (crs_init cap partial ps err) counts <> None.
+Proof. exact chunked_malformed_safe_proof. Qed.
+Print Assumptions chunked_malformed_safe.
+
+Theorem parse_malformed_safe :
+  forall (is_req : bool) (cap fill verb : Z) (ps : pieces) (err : bool),
+    0 < cap < 65536 ->
+    receive_header (rh_fuel ps) (msg_init is_req cap fill verb) ps err <> None.
+Proof. exact parse_malformed_safe_proof. Qed.
+Print Assumptions parse_malformed_safe.
